@@ -17,7 +17,8 @@ A mask generator call is `with temp_seed(self.rng, seed): <body>`; the body draw
 
 Streams are abstract (`Ops`): `seedTo : Seed → σ`, `draw : σ → Req → Val × σ`.
 The explicit state is: one private stream per generator instance, the global numpy / torch / python
-streams, the libc `rand` state (seed of the last kernel run), and the OS entropy counter.
+streams, the libc `rand` state (a stream like the others: `srand(v)` puts it into `srandTo v`, every
+`rand()` loop of a Cython kernel draws from it), and the OS entropy counter.
 
 *Which* stream a draw statement reads and whether it is lexically inside the `with` is not assumed:
 it is a **table** (`List Site`) generated from the source by the translator.  The semantics below is
@@ -64,6 +65,8 @@ structure Ops (σ Seed Req Val : Type) where
   intz : Seed → Seed
   /-- the n-th seed handed out by the OS (`seed(None)`, `RandomState()`) -/
   entropy : Nat → Seed
+  /-- libc `srand(v)` with the integer `v` a kernel was handed: the state of the C generator afterwards -/
+  srandTo : Val → σ
 
 /-- the explicit state -/
 structure State (σ Val : Type) where
@@ -71,7 +74,7 @@ structure State (σ Val : Type) where
   np : σ
   torch : σ
   py : σ
-  libc : Option Val       -- seed of the last Cython kernel run (`srand`), `none` = untouched
+  libc : σ                -- state of libc's `rand()` (process global, shared by all Cython kernels)
   ent : Nat               -- OS entropy consumed so far
 
 def State.setPriv {σ Val} (st : State σ Val) (i : Nat) (s : σ) : State σ Val :=
@@ -84,9 +87,11 @@ inductive Prog (Req Val Out : Type) where
   | draw (site : Nat) (r : Req) (k : Val → Prog Req Val Out)
   /-- `<stream>.seed(integerize_seed(seed))` at static site `site` -/
   | reseed (site : Nat) (k : Prog Req Val Out)
-  /-- a Cython kernel run: `srand(v)` then libc `rand()`s; its result is a function of `v` and of
-  the arguments, i.e. part of the continuation -/
-  | kernel (v : Val) (k : Prog Req Val Out)
+  /-- libc `srand(v)` (first statement of every Cython kernel; `v` is the integer it was handed) -/
+  | srand (v : Val) (k : Prog Req Val Out)
+  /-- the `rand()` loop of a Cython kernel run with arguments `r`: reads and advances the libc state; the
+  value stands for everything the loop computed from the numbers it drew -/
+  | crand (r : Req) (k : Val → Prog Req Val Out)
 
 section
 variable {σ Seed Req Val Out : Type}
@@ -128,7 +133,9 @@ def interp (t : Table) (O : Ops σ Seed Req Val) (seed : Option Seed) :
     | .torchGlobal, _ => interp t O seed k cur outer { st' with torch := s }
     | .pyGlobal, _ => interp t O seed k cur outer { st' with py := s }
     | _, _ => interp t O seed k cur outer { st' with np := s }
-  | .kernel v k, cur, outer, st => interp t O seed k cur outer { st with libc := some v }
+  | .srand v k, cur, outer, st => interp t O seed k cur outer { st with libc := O.srandTo v }
+  | .crand r k, cur, outer, st =>
+    interp t O seed (k (O.draw st.libc r).1) cur outer { st with libc := (O.draw st.libc r).2 }
 
 /-- a generator call on instance `i` as the code performs it for an arbitrary table -/
 def call (t : Table) (O : Ops σ Seed Req Val) (prog : Prog Req Val Out) (seed : Option Seed) (i : Nat)
@@ -145,14 +152,14 @@ structure RunRes (σ Req Val Out : Type) where
   out : Out
   cur : σ
   ent : Nat
-  libc : Option Val
-  /-- the request sequence (site, request) in execution order -/
+  libc : σ
+  /-- the request sequence (site, request) on the private stream in execution order -/
   trace : List (Nat × Req)
 
 /-- the body when every statement is a private in-scope draw (or the local stream of
 `integerize_seed`): reads `cur`, the seed, OS entropy (only when unseeded); writes libc -/
 def runIn (t : Table) (O : Ops σ Seed Req Val) (seed : Option Seed) :
-    Prog Req Val Out → σ → Nat → Option Val → RunRes σ Req Val Out
+    Prog Req Val Out → σ → Nat → σ → RunRes σ Req Val Out
   | .ret o, cur, e, l => ⟨o, cur, e, l, []⟩
   | .draw site r k, cur, e, l =>
     if (lookup t site).src = .priv then
@@ -165,7 +172,8 @@ def runIn (t : Table) (O : Ops σ Seed Req Val) (seed : Option Seed) :
     if (lookup t site).src = .priv then
       runIn t O seed k (O.seedTo (O.intz (effSeedE O seed e).1)) (effSeedE O seed e).2 l
     else runIn t O seed k cur (effSeedE O seed e).2 l
-  | .kernel v k, cur, e, _ => runIn t O seed k cur e (some v)
+  | .srand v k, cur, e, _ => runIn t O seed k cur e (O.srandTo v)
+  | .crand r k, cur, e, l => runIn t O seed (k (O.draw l r).1) cur e (O.draw l r).2
 
 /-- `temp_seed` exactly as coded: save, seed, run the body, restore -/
 def tempSeed (O : Ops σ Seed Req Val) (seed : Option Seed) (i : Nat)
@@ -186,14 +194,36 @@ inductive SitesIn (n : Nat) : Prog Req Val Out → Prop where
   | ret (o) : SitesIn n (.ret o)
   | draw {site r k} : site < n → (∀ v, SitesIn n (k v)) → SitesIn n (.draw site r k)
   | reseed {site k} : site < n → SitesIn n k → SitesIn n (.reseed site k)
-  | kernel {v k} : SitesIn n k → SitesIn n (.kernel v k)
+  | srand {v k} : SitesIn n k → SitesIn n (.srand v k)
+  | crand {r k} : (∀ x, SitesIn n (k x)) → SitesIn n (.crand r k)
+
+/-- **libc discipline of a body**: no `rand()` loop runs before an `srand` of the same call.  The flag says
+whether libc has already been seeded during this call. -/
+inductive LibcOk : Bool → Prog Req Val Out → Prop where
+  | ret {b} (o) : LibcOk b (.ret o)
+  | draw {b site r k} : (∀ v, LibcOk b (k v)) → LibcOk b (.draw site r k)
+  | reseed {b site k} : LibcOk b k → LibcOk b (.reseed site k)
+  | srand {b v k} : LibcOk true k → LibcOk b (.srand v k)
+  | crand {r k} : (∀ x, LibcOk true (k x)) → LibcOk true (.crand r k)
+
+/-- a body that never touches libc (every generator without a Cython kernel) -/
+inductive NoLibc : Prog Req Val Out → Prop where
+  | ret (o) : NoLibc (.ret o)
+  | draw {site r k} : (∀ v, NoLibc (k v)) → NoLibc (.draw site r k)
+  | reseed {site k} : NoLibc k → NoLibc (.reseed site k)
+
+/-- one Cython kernel run as the `.pyx` performs it.  `srandFirst` is the generated fact "`srand(seed)` on the
+int parameter, once, before any `rand()`"; when it does not hold the loop reads whatever state libc is in. -/
+def kernelProg (srandFirst : Bool) (v : Val) (r : Req) (k : Val → Prog Req Val Out) : Prog Req Val Out :=
+  if srandFirst then .srand v (.crand r k) else .crand r fun x => .srand v (k x)
 
 /-- sequential composition -/
 def Prog.bind {X : Type} : Prog Req Val X → (X → Prog Req Val Out) → Prog Req Val Out
   | .ret x, f => f x
   | .draw site r k, f => .draw site r (fun v => (k v).bind f)
   | .reseed site k, f => .reseed site (k.bind f)
-  | .kernel v k, f => .kernel v (k.bind f)
+  | .srand v k, f => .srand v (k.bind f)
+  | .crand r k, f => .crand r (fun x => (k x).bind f)
 
 /-- shape shared by every `mask_func`: leading draws (`choose_acceleration`, …) produce `x`; then
 `if return_acs: return acsOf x`, else the remaining draws produce the mask (which ORs in the same
@@ -210,10 +240,13 @@ inductive Op (Seed Req G A : Type) where
   | call (g : G) (a : A) (inst : Nat) (seed : Option Seed)
   /-- a new generator object: `self.rng = np.random.RandomState()` (seeded by the OS) -/
   | newInst (inst : Nat)
-  /-- somebody draws from a global stream (0 numpy, 1 torch, 2 python) -/
+  /-- somebody draws from a global stream (0 numpy, 1 torch, 2 python, other = libc `rand()`) -/
   | drawGlobal (which : Nat) (r : Req)
-  /-- somebody seeds a global stream -/
+  /-- somebody seeds a global stream (libc: `srand`) -/
   | seedGlobal (which : Nat) (s : Seed)
+  /-- `copy.deepcopy` / pickle round trip / `fork` of a generator object: `dst` becomes a copy of `src`
+  (same class and options — hence the same body — and a private stream in the same state) -/
+  | clone (src dst : Nat)
 
 def step {G A : Type} (t : Table) (O : Ops σ Seed Req Val) (body : G → A → Prog Req Val Out)
     (st : State σ Val) : Op Seed Req G A → State σ Val × Option Out
@@ -222,11 +255,14 @@ def step {G A : Type} (t : Table) (O : Ops σ Seed Req Val) (body : G → A → 
   | .drawGlobal w r =>
     if w = 0 then ({ st with np := (O.draw st.np r).2 }, none)
     else if w = 1 then ({ st with torch := (O.draw st.torch r).2 }, none)
-    else ({ st with py := (O.draw st.py r).2 }, none)
+    else if w = 2 then ({ st with py := (O.draw st.py r).2 }, none)
+    else ({ st with libc := (O.draw st.libc r).2 }, none)
   | .seedGlobal w s =>
     if w = 0 then ({ st with np := O.seedTo s }, none)
     else if w = 1 then ({ st with torch := O.seedTo s }, none)
-    else ({ st with py := O.seedTo s }, none)
+    else if w = 2 then ({ st with py := O.seedTo s }, none)
+    else ({ st with libc := O.seedTo s }, none)
+  | .clone s d => (st.setPriv d (st.priv s), none)
 
 /-- run a history, collecting the state after every op and every output -/
 def run {G A : Type} (t : Table) (O : Ops σ Seed Req Val) (body : G → A → Prog Req Val Out) :
@@ -262,6 +298,17 @@ seed argument is a draw from `self.rng` inside the scope (possibly passed throug
 parameter) -/
 def kernelCallOk (k : Bool × Bool) : Bool := k.1 && k.2
 
+/-- ordered libc events of one `.pyx` kernel body, cdef helpers expanded, in execution order of the straight-line
+prefix: `"srand:seed"` (`srand` of the int parameter `seed`), `"srand:other"`, `"rand"` (a `rand()` or a helper
+that calls it).  The kernel is admissible when the first event is `srand(seed)` and there is no second `srand`. -/
+def pyxSrandFirst (evs : List String) : Bool :=
+  evs.head? == some "srand:seed" &&
+    (evs.filter fun e => e == "srand:seed" || e == "srand:other").length == 1
+
+/-- the generated `.pyx` table `(kernel, events)`: every kernel seeds first and does draw -/
+def pyxTableOk (t : List (String × List String)) : Bool :=
+  !t.isEmpty && t.all fun k => pyxSrandFirst k.2 && k.2.contains "rand"
+
 /-- the generators the property quantifies over -/
 def expectedGenerators : List String :=
   ["FastMRIRandom", "FastMRIEquispaced", "FastMRIMagic", "CartesianRandom", "CartesianEquispaced",
@@ -291,5 +338,16 @@ memory of earlier calls.  That is admissible only if `mask_func` and its helpers
 state (`self.<attr> = …`, `self.<attr>[…] = …`, `self.<attr>.append(…)`, …): the generated list of such
 writes must be empty -/
 def selfWritesOk (l : List (String × String × String)) : Bool := l.isEmpty
+
+/-- closed-world reading of the RNG-access table: every callable reachable from a `mask_func` was either walked
+(functions of `direct.*`, nested functions, the `.pyx` kernels) or belongs to an external library and is not one
+of its random-number entry points; calls the walk could not resolve are listed and must be absent -/
+def reachClosed (unresolved : List (String × String)) : Bool := unresolved.isEmpty
+
+/-- consumers of the generators outside `subsample.py` `(site, seed expression class)`: the seed handed to
+`mask_func` is the caller's own `seed` parameter or the file-name tuple — never slice-, time- or hash-dependent.
+Classes: 0 = `tuple(map(ord, str(sample["filename"])))` guarded by `use_seed`, 1 = a parameter passed through,
+other = anything else. -/
+def consumersOk (l : List (String × Nat)) : Bool := !l.isEmpty && l.all fun c => c.2 == 0 || c.2 == 1
 
 end DirectVerif.Rng
